@@ -221,6 +221,8 @@ def simp1(t):
         if t[1] == TRUE: return t[2]
         if t[1] == FALSE: return t[3]
         if t[2] == t[3]: return t[2]
+        if t[2] == TRUE and t[3] == FALSE: return t[1]
+        if t[2] == FALSE and t[3] == TRUE: return NOT(t[1])
         return None
     if k == 'bin':
         op, a, b = t[1], t[2], t[3]
